@@ -576,3 +576,27 @@ func reachingStores(al *ssa.Alloc, at ssa.Instruction) []*ssa.Store {
 	}
 	return out
 }
+
+// funcsOf: the tree functions a function value can be (literals, named functions, bound
+// methods), on every origin; nil if some origin is not a known function.
+func (c *Ctx) funcsOf(v ssa.Value) []*ssa.Function {
+	var out []*ssa.Function
+	for _, o := range c.origins(v) {
+		if len(o.Fields) != 0 {
+			return nil
+		}
+		var f *ssa.Function
+		switch x := o.Root.(type) {
+		case *ssa.MakeClosure:
+			f, _ = x.Fn.(*ssa.Function)
+		case *ssa.Function:
+			f = x
+		}
+		f = c.P.unbound(f)
+		if f == nil || len(f.Blocks) == 0 {
+			return nil
+		}
+		out = append(out, f)
+	}
+	return out
+}
